@@ -13,10 +13,11 @@ import (
 	sigtypes "github.com/chain4energy/c4e-chain/x/cfesignature/types"
 	vesttypes "github.com/chain4energy/c4e-chain/x/cfevesting/types"
 	sdk "github.com/cosmos/cosmos-sdk/types"
+	stakingtypes "github.com/cosmos/cosmos-sdk/x/staking/types"
 )
 
 var c09Msgs = []string{"send-restart", "send-norestart", "create-account", "split", "move", "move-denoms", "sig-create-valid-key", "sig-create-other-key", "sig-create-malformed"}
-var c09Targets = []string{"absent", "base-nokey", "base-withkey", "base-empty", "continuous-vesting", "delayed-vesting", "module-materialised", "module-unmaterialised", "module-gov", "signer-itself"}
+var c09Targets = []string{"absent", "base-nokey", "base-withkey", "base-empty", "continuous-vesting", "continuous-vesting-emptied", "continuous-vesting-all-delegated", "delayed-vesting", "module-materialised", "module-unmaterialised", "module-gov", "signer-itself"}
 var c09Signers = []string{"proper", "stranger"}
 
 func c09Combos() int { return len(c09Msgs) * len(c09Targets) * len(c09Signers) }
@@ -76,6 +77,7 @@ func runC09(c *fw.Case) {
 		signer = e.strangers[0]
 	}
 	var target string
+	unbranched := false
 	var targetKey *chain.Key
 	switch tk {
 	case "absent":
@@ -90,6 +92,25 @@ func runC09(c *fw.Case) {
 	case "continuous-vesting":
 		k := e.cvaKeys[1]
 		target, targetKey = k.Bech(), &k
+	case "continuous-vesting-emptied":
+		// a vesting account that moved everything it had locked to somebody else: it keeps its
+		// key, number and sequence, its original vesting is empty
+		k := e.cvaKeys[2]
+		target, targetKey = k.Bech(), &k
+		if res, derr := e.n.Deliver(k, &vesttypes.MsgMoveAvailableVesting{FromAddress: k.Bech(), ToAddress: e.fresh().Bech()}); derr != nil || res.Code != 0 {
+			c.Count("emptied_vesting_target_not_emptied", 1)
+		}
+	case "continuous-vesting-all-delegated":
+		// a vesting account whose whole balance is staked: it holds no coins at the moment.
+		// These cases hand the message to the routed handler on the block's own context - a
+		// refusal must be clean for a caller that has nothing to discard as well
+		k := e.cvaKeys[0]
+		target, targetKey = k.Bech(), &k
+		bal := e.n.App.BankKeeper.GetBalance(e.n.Ctx(), k.Addr, vDenom)
+		if res, derr := e.n.Deliver(k, &stakingtypes.MsgDelegate{DelegatorAddress: k.Bech(), ValidatorAddress: e.n.ValOper.String(), Amount: bal}); derr != nil || res.Code != 0 {
+			c.Count("all_delegated_target_not_delegated", 1)
+		}
+		unbranched = true
 	case "delayed-vesting":
 		target, targetKey = e.delayed.Bech(), &e.delayed
 	case "module-materialised":
@@ -138,6 +159,7 @@ func runC09(c *fw.Case) {
 		op = vOp{kind: "move-denoms", signer: signer, msg: msg, owner: signer.Bech(), to: target, denoms: []string{vDenom}, custom: true, desc: mk + " -> " + tk}
 	}
 	if !isSig {
+		op.unbranched = unbranched
 		o, err := e.exec(op, now)
 		if err != nil {
 			if p := asPanic(err); p != nil {
